@@ -264,20 +264,23 @@ def main_check(mod, argv):
     for e in ([] if no_replay else KF.entries):
         if pid not in e.get('properties', []):
             continue
-        rp = e.get('replay', {}).get(pid)
-        if not rp:
-            continue
-        path = os.path.join(env.VERIF, rp)
-        out, msg = _run_replay_file(mod, path, breg)
-        replayed += 1
-        if e.get('status') == 'open':
-            if out == 'fail':
-                known_lines.append('KNOWN-FINDING: property=%s %s [%s] (%s)' % (pid, e['what'], e['id'], msg[:160]))
-            else:
-                print('note: open known finding %s no longer reproduces (%s)' % (e['id'], out))
-        else:
-            if out == 'fail':
+        rps = [e.get('replay', {}).get(pid)] + [r for r in e.get('more_reproducers', []) if r.startswith('replays/%s/' % pid)]
+        rps = [r for r in rps if r]
+        still = None
+        for rp in rps:
+            path = os.path.join(env.VERIF, rp)
+            out, msg = _run_replay_file(mod, path, breg)
+            replayed += 1
+            if e.get('status') == 'open':
+                if out == 'fail' and still is None:
+                    still = msg
+            elif out == 'fail':
                 violations.append(('fixed-finding:' + e['id'], path, msg))
+        if e.get('status') == 'open' and rps:
+            if still is not None:
+                known_lines.append('KNOWN-FINDING: property=%s %s [%s] (%s)' % (pid, e['what'], e['id'], still[:160]))
+            else:
+                print('note: open known finding %s no longer reproduces' % (e['id'],))
 
     # 2. generated search
     jobs = []
